@@ -6,6 +6,7 @@ import (
 	"fmt"
 	"os"
 	"strings"
+	"sync"
 	"testing"
 
 	am "github.com/pancsta/asyncmachine-go/pkg/machine"
@@ -38,6 +39,98 @@ type Case struct {
 	rec.Case
 	// VetoAt: index into the dry run's call log of the negotiation call that returns false; -1 = none
 	VetoAt int `json:"veto_at"`
+	// Prefixed: one more binding with BindOpts.StatePrefix "S" (all user states are S<n>): it handles the user
+	// states' events under their trimmed names (S1State -> "1State") and no event without the prefix (Any*, Exception*)
+	Prefixed bool `json:"prefixed,omitempty"`
+}
+
+// prefRec records the calls of the prefixed binding per transition.
+type prefRec struct {
+	mu    sync.Mutex
+	calls map[string]map[string]int // tx id -> handler key -> calls
+}
+
+func (p *prefRec) hit(e *am.Event, key string) {
+	id := ""
+	if tx := e.Transition(); tx != nil {
+		id = tx.Id
+	}
+	p.mu.Lock()
+	defer p.mu.Unlock()
+	if p.calls[id] == nil {
+		p.calls[id] = map[string]int{}
+	}
+	p.calls[id][key]++
+}
+
+var prefForeign = []string{"AnyEnter", "AnyState", am.StateException + am.SuffixEnter, am.StateException + am.SuffixState,
+	am.StateException + am.SuffixExit, am.StateException + am.SuffixEnd}
+
+func (p *prefRec) bind(m *am.Machine, users []string) error {
+	neg := map[string]am.HandlerNegotiation{}
+	fin := map[string]am.HandlerFinal{}
+	for _, n := range users {
+		tr := strings.TrimPrefix(n, "S")
+		for _, sfx := range []string{am.SuffixEnter, am.SuffixExit} {
+			k := tr + sfx
+			neg[k] = func(e *am.Event) bool { p.hit(e, k); return true }
+		}
+		for _, sfx := range []string{am.SuffixState, am.SuffixEnd} {
+			k := tr + sfx
+			fin[k] = func(e *am.Event) { p.hit(e, k) }
+		}
+	}
+	for _, k := range prefForeign {
+		k := k
+		if gen.IsFinalName(k) {
+			fin[k] = func(e *am.Event) { p.hit(e, "foreign:"+k) }
+		} else {
+			neg[k] = func(e *am.Event) bool { p.hit(e, "foreign:"+k); return true }
+		}
+	}
+	_, err := m.HandlersBindMaps(neg, fin, am.BindOpts{Id: "prefixed", StatePrefix: "S"})
+	return err
+}
+
+// checkPrefixed: the prefixed binding got each changed user state's final handler exactly once (accepted,
+// un-vetoed transitions), and never an event of a name without the prefix.
+func checkPrefixed(r *rec.Run, tx *rec.Tx, got map[string]int, vetoed bool) error {
+	for _, k := range prefForeign {
+		if n := got["foreign:"+k]; n != 0 {
+			return fmt.Errorf("tx %s(%v): the binding with StatePrefix \"S\" got %d call(s) of %s, an event without its prefix", tx.Type, tx.Called, n, k)
+		}
+	}
+	if tx.IsCheck || !tx.Accepted || vetoed {
+		for k, n := range got {
+			if n > 0 && (strings.HasSuffix(k, am.SuffixState) || strings.HasSuffix(k, am.SuffixEnd)) && (!tx.Accepted || tx.IsCheck) {
+				return fmt.Errorf("tx %s(%v): prefixed binding's final handler %s ran in a canceled or check transition", tx.Type, tx.Called, k)
+			}
+		}
+		return nil
+	}
+	names := []string(r.Names)
+	before := model.ActiveOf(names, tx.TimeBefore)
+	after := model.ActiveOf(names, tx.TimeAfter)
+	for i, n := range names {
+		if !strings.HasPrefix(n, "S") {
+			continue
+		}
+		ws, we := 0, 0
+		switch {
+		case !before[n] && after[n]:
+			ws = 1
+		case before[n] && !after[n]:
+			we = 1
+		case tx.TimeAfter[i] != tx.TimeBefore[i]:
+			ws = 1
+		}
+		tr := strings.TrimPrefix(n, "S")
+		if gs, ge := got[tr+am.SuffixState], got[tr+am.SuffixEnd]; gs != ws || ge != we {
+			return fmt.Errorf("tx %s(%v) %v -> %v: the binding with StatePrefix \"S\" got %d %sState and %d %sEnd calls for state %s, want %d and %d",
+				tx.Type, tx.Called, tx.TimeBefore, tx.TimeAfter, gs, tr, ge, tr, n, ws, we)
+		}
+	}
+	return nil
 }
 
 func phaseOf(name string, names []string) string {
@@ -274,8 +367,13 @@ func runCase(c Case, st *ev.Stats) (negPositions []int, err error) {
 	nontrivial := false
 	vetoNonFirst := false
 	callIdx := 0
+	pref := &prefRec{calls: map[string]map[string]int{}}
+	var prefErr error
 	run, e := rec.Exec(c.Case, rec.ExecOpts{
 		Prepare: func(r *rec.Run) {
+			if c.Prefixed {
+				prefErr = pref.bind(r.M, c.Schema.UserNames())
+			}
 			if c.VetoAt >= 0 {
 				r.Runner.Hook = func(cl *rec.Call, e *am.Event) (bool, bool) {
 					if cl.Seq == c.VetoAt && !gen.IsFinalName(cl.Name) {
@@ -296,6 +394,20 @@ func runCase(c Case, st *ev.Stats) (negPositions []int, err error) {
 				seen += len(calls)
 				if err := checkTx(r, tx, calls, nb, acyclic, &fd); err != nil {
 					return fmt.Errorf("after %s: %w", out.Step, err)
+				}
+				if c.Prefixed {
+					vetoed := false
+					for _, cl := range calls {
+						if !cl.Ret {
+							vetoed = true
+						}
+					}
+					pref.mu.Lock()
+					got := pref.calls[tx.Id]
+					pref.mu.Unlock()
+					if err := checkPrefixed(r, tx, got, vetoed); err != nil {
+						return fmt.Errorf("after %s: %w", out.Step, err)
+					}
 				}
 				for i, cl := range calls {
 					if !gen.IsFinalName(cl.Name) {
@@ -338,8 +450,14 @@ func runCase(c Case, st *ev.Stats) (negPositions []int, err error) {
 	if e != nil {
 		return negPositions, e
 	}
+	if prefErr != nil {
+		return negPositions, fmt.Errorf("setup: binding with StatePrefix: %w", prefErr)
+	}
 	if st != nil {
 		st.Eval(1)
+		if c.Prefixed {
+			st.Class("binding-with-state-prefix")
+		}
 		if !acyclic {
 			st.Class("order-graph-cyclic (ordering not asserted)")
 		}
@@ -364,6 +482,7 @@ func genCase(t *rapid.T) Case {
 	c.Schema = sc
 	c.Table = gen.GenTable(t, sc, gen.TableOpts{Complete: true, MaxBindings: 3, WithException: true})
 	c.History = gen.GenHistory(t, sc, gen.HistoryOpts{MinLen: 1, MaxLen: 8, Ops: []string{"add", "remove", "set", "toggle", "canadd"}, WithException: true})
+	c.Prefixed = rapid.IntRange(0, 2).Draw(t, "prefixed") == 0
 	return c
 }
 
